@@ -111,23 +111,23 @@ func Suites12() map[uint16]Suite12 {
 	add := func(id uint16, kind string, key, iv, mac, tag int, prf, mh func() hash.Hash) {
 		m[id] = Suite12{ID: id, Kind: kind, KeyLen: key, IVLen: iv, MACLen: mac, TagLen: tag, PRFHash: prf, MACHash: mh}
 	}
-	add(0xc0ac, "ccm", 16, 4, 0, 16, s256, nil)     // ECDHE_ECDSA_AES_128_CCM
-	add(0xc0ae, "ccm", 16, 4, 0, 8, s256, nil)      // ECDHE_ECDSA_AES_128_CCM_8
-	add(0xc02b, "gcm", 16, 4, 0, 16, s256, nil)     // ECDHE_ECDSA_AES_128_GCM_SHA256
-	add(0xc02f, "gcm", 16, 4, 0, 16, s256, nil)     // ECDHE_RSA_AES_128_GCM_SHA256
-	add(0xc02c, "gcm", 32, 4, 0, 16, s384, nil)     // ECDHE_ECDSA_AES_256_GCM_SHA384
-	add(0xc030, "gcm", 32, 4, 0, 16, s384, nil)     // ECDHE_RSA_AES_256_GCM_SHA384
+	add(0xc0ac, "ccm", 16, 4, 0, 16, s256, nil)       // ECDHE_ECDSA_AES_128_CCM
+	add(0xc0ae, "ccm", 16, 4, 0, 8, s256, nil)        // ECDHE_ECDSA_AES_128_CCM_8
+	add(0xc02b, "gcm", 16, 4, 0, 16, s256, nil)       // ECDHE_ECDSA_AES_128_GCM_SHA256
+	add(0xc02f, "gcm", 16, 4, 0, 16, s256, nil)       // ECDHE_RSA_AES_128_GCM_SHA256
+	add(0xc02c, "gcm", 32, 4, 0, 16, s384, nil)       // ECDHE_ECDSA_AES_256_GCM_SHA384
+	add(0xc030, "gcm", 32, 4, 0, 16, s384, nil)       // ECDHE_RSA_AES_256_GCM_SHA384
 	add(0xc00a, "cbc", 32, 16, 20, 0, s256, sha1.New) // ECDHE_ECDSA_AES_256_CBC_SHA
 	add(0xc014, "cbc", 32, 16, 20, 0, s256, sha1.New) // ECDHE_RSA_AES_256_CBC_SHA
-	add(0xc0a4, "ccm", 16, 4, 0, 16, s256, nil)     // PSK_AES_128_CCM
-	add(0xc0a8, "ccm", 16, 4, 0, 8, s256, nil)      // PSK_AES_128_CCM_8
-	add(0xc0a9, "ccm", 32, 4, 0, 8, s256, nil)      // PSK_AES_256_CCM_8
-	add(0x00a8, "gcm", 16, 4, 0, 16, s256, nil)     // PSK_AES_128_GCM_SHA256
-	add(0x00ae, "cbc", 16, 16, 32, 0, s256, s256)   // PSK_AES_128_CBC_SHA256
-	add(0xc037, "cbc", 16, 16, 32, 0, s256, s256)   // ECDHE_PSK_AES_128_CBC_SHA256
-	add(0xcca9, "chacha", 32, 12, 0, 16, s256, nil) // ECDHE_ECDSA_CHACHA20_POLY1305
-	add(0xcca8, "chacha", 32, 12, 0, 16, s256, nil) // ECDHE_RSA_CHACHA20_POLY1305
-	add(0xccab, "chacha", 32, 12, 0, 16, s256, nil) // PSK_CHACHA20_POLY1305
+	add(0xc0a4, "ccm", 16, 4, 0, 16, s256, nil)       // PSK_AES_128_CCM
+	add(0xc0a8, "ccm", 16, 4, 0, 8, s256, nil)        // PSK_AES_128_CCM_8
+	add(0xc0a9, "ccm", 32, 4, 0, 8, s256, nil)        // PSK_AES_256_CCM_8
+	add(0x00a8, "gcm", 16, 4, 0, 16, s256, nil)       // PSK_AES_128_GCM_SHA256
+	add(0x00ae, "cbc", 16, 16, 32, 0, s256, s256)     // PSK_AES_128_CBC_SHA256
+	add(0xc037, "cbc", 16, 16, 32, 0, s256, s256)     // ECDHE_PSK_AES_128_CBC_SHA256
+	add(0xcca9, "chacha", 32, 12, 0, 16, s256, nil)   // ECDHE_ECDSA_CHACHA20_POLY1305
+	add(0xcca8, "chacha", 32, 12, 0, 16, s256, nil)   // ECDHE_RSA_CHACHA20_POLY1305
+	add(0xccab, "chacha", 32, 12, 0, 16, s256, nil)   // PSK_CHACHA20_POLY1305
 
 	return m
 }
@@ -508,8 +508,8 @@ const DTLS13Prefix = "dtls13"
 
 // Schedule13 holds the secrets derivable from (ECDHE, transcript hashes).
 type Schedule13 struct {
-	Early, Handshake, Master            []byte
-	ClientHS, ServerHS                  []byte
+	Early, Handshake, Master           []byte
+	ClientHS, ServerHS                 []byte
 	ClientApp0, ServerApp0, ExporterMS []byte
 }
 
